@@ -14,6 +14,8 @@ impl InstructionGenerator {
         self.generate_eval_select_case_expr(expr, pos);
         self.generate_case_blocks(case_blocks, else_block.is_some(), pos);
         self.generate_else_block(else_block, pos);
+        // to be able to resume after an error at the last statement of CASE ELSE
+        self.mark_statement_address();
         // need to pop value from stack because it was pushed by `generate_eval_select_case_expr`
         self.push(Instruction::PopValueStackIntoA, pos);
         self.label(labels::end_select(), pos);
@@ -50,6 +52,8 @@ impl InstructionGenerator {
             }
             // run matched CASE block statements
             self.visit(statements);
+            // to be able to resume after an error at the last statement
+            self.mark_statement_address();
             // jump out of SELECT
             self.jump(labels::end_select(), pos);
         }
